@@ -1042,6 +1042,17 @@ func (se *symExec) eval(st *state, fr *frame, v ssa.Value, pristine bool) *Term 
 		if in.Op == token.EQL || in.Op == token.NEQ {
 			isNilT := func(t *Term) bool { return t.Op == "const" && t.Cval == nil && strings.HasPrefix(t.Aux, "nil") }
 			isFn := func(t *Term) bool { return t.Op == "closure" || t.Op == "func" }
+			// nil compared with nil (an error a helper returned as the nil constant, tested by its caller)
+			if isNilT(x) && isNilT(y) {
+				return constTerm(constant.MakeBool(in.Op == token.EQL), in.Type())
+			}
+			// an error made by fmt.Errorf / errors.New is never nil
+			isMadeErr := func(t *Term) bool {
+				return t.Op == "call" && (strings.HasPrefix(t.Aux, "fmt.Errorf") || strings.HasPrefix(t.Aux, "errors.New"))
+			}
+			if isMadeErr(x) && isNilT(y) || isNilT(x) && isMadeErr(y) {
+				return constTerm(constant.MakeBool(in.Op == token.NEQ), in.Type())
+			}
 			if _, isSig := in.X.Type().Underlying().(*types.Signature); isSig {
 				switch {
 				case isNilT(x) && isNilT(y):
